@@ -305,6 +305,14 @@ def match(real, line, tol=TOL):
         qs = [parse_rat(t) for t in toks[3:]]
         flat = [x for row in rows for x in row]
         return all(close(x, q, tol) for x, q in zip(flat, qs)), ""
+    if tag == "flt":
+        if rtag != "num":
+            return False, "tag"
+        import struct
+        if toks[1] in ("nan", "inf", "-inf"):
+            return False, "nonfinite"
+        v = struct.unpack("<d", struct.pack("<Q", int(toks[1])))[0]
+        return close(real[1], v, tol), ""
     if tag == "red":
         return (rtag == "red" and real[1] == toks[1] and real[2] == (toks[2] if len(toks) > 2 else "")), ""
     if tag == "self":
